@@ -152,6 +152,26 @@ static void computeRowsCase(Rng &rng, CaseResult &r) {
     r.sample = j.str();
   }
   if (r.dumpOnly) return;
+  if (rng.chance(0.4)) {
+    // the object has a past: rows were computed once, then sizes / positions / orientations / obstruction flags of the cells were
+    // changed through the public setters (no setCellIsFixed afterwards). The second computation must reflect the current state.
+    (void)c.computeRows(extra);
+    std::vector<int> w = c.cellWidth_, h = c.cellHeight_, x = c.cellX_, y = c.cellY_;
+    std::vector<CellOrientation> oo = c.cellOrientation_;
+    std::vector<bool> ob = c.cellIsObstruction_;
+    int unit = (int)o.scale;
+    for (int i = 0; i < c.nbCells(); ++i) {
+      if (!c.cellIsFixed_[i] || !rng.chance(0.6)) continue;
+      int what = (int)rng.range(0, 4);
+      if (what == 0) w[i] = (w[i] == 0 || rng.chance(0.5)) ? (int)rng.range(1, 6) * unit : 0;
+      else if (what == 1) h[i] = (h[i] == 0 || rng.chance(0.5)) ? (int)rng.range(1, 3) * std::max(1, c.rows_[0].height()) : 0;
+      else if (what == 2) { x[i] += (int)rng.range(-5, 5) * unit; y[i] += (int)rng.range(-2, 2) * unit; }
+      else if (what == 3) oo[i] = ALL8[rng.range(0, 7)];
+      else ob[i] = !ob[i];
+    }
+    c.setCellWidth(w); c.setCellHeight(h); c.setCellX(x); c.setCellY(y); c.setCellOrientation(oo); c.setCellIsObstruction(ob);
+    r.count("second_computation_after_changes");
+  }
   std::vector<Row> got = c.computeRows(extra);
   // oracle obstacles: fixed AND obstruction cells (placed rectangle from own transform) + extra
   std::vector<Rectangle> obs = extra;
